@@ -42,7 +42,10 @@ State semantics (property text)
 Open points of the property text (every reading accepted by `readings`):
 * the relative order of axes contributed by *different* upstream nodes (fan-in): the
   primary reading follows the task's field order (first input first = outermost, as in
-  the documented A->C, B->C examples); `axis_orders="any"` enumerates the others.
+  the documented A->C, B->C examples); `readings()` also yields every other permutation.
+* NOT open (fixed by the text / docs): upstream loops are outside the node's own loops; an
+  outer splitter enumerates left-major; a combined output is ONE flat list per assignment
+  of the remaining axes; a workflow output over >= 2 remaining axes is one flat list.
 """
 
 from __future__ import annotations
